@@ -108,7 +108,7 @@ def check(ck, lib, sk, rid, which):
                     if d is False:
                         continue
                     pid = pid[1] if d is True else ("maybe", pid[1])
-                toks.append(pid)
+                toks.append(pid if pid is not None else ("unknown parser",))
             rest = [t for t in toks if not (t[0] == "fn" and t[1] == P + "whitespace") and not (t[0] == "maybe" and t[1] == ("fn", P + "whitespace"))]
             ok = ch0 is not None and rest == [("tag", 10)]
             ck.judge(ok, rid, "parse:none#%d" % n_none, "no call is returned only for an empty message (white space, newline)",
